@@ -116,9 +116,10 @@ class InterceptingLLUDPProxyProtocol(UDPProxyProtocol):
         region.circuit.collect_acks(message)
 
         if message.name == "AgentMovementComplete":
-            self.session.main_region = region
+            # Reading the handle may fail on an undecodable body, do it before anything changes
             if region.handle is None:
                 region.handle = message["Data"]["RegionHandle"]
+            self.session.main_region = region
             LOG.info(f"Setting main region to {region!r}, had circuit addr {packet.far_addr!r}")
             AddonManager.handle_region_changed(self.session, region)
         if message.name == "RegionHandshake":
